@@ -561,7 +561,7 @@ def run_c17(pid, tier, rep, deadline_s):
                                    'exhaustive': all(b['completed'] for b in bounds), 'rule': 'Grammar part: run-time construction of parsers whose rules mention an undeclared symbol in every position kind must throw (compiled black-box program, g++ and clang++).'})
 
 # ----------------------------------------------------------------------------- C15: histories, schedules, TSan
-C15_RULE = 'Call alphabet of 11 calls on two parser objects (generated lexer + typed term + error rule; custom lexer): accepted, recovering, failing-at-eof, lexical-error and failing-recovery parses, a verbose parse, context_parse with a mutated context, write_diag_str. (1) Histories: every call sequence up to the depth bound runs in its own forked process on parser objects placed in read-only (mprotect) pages; after every call the bytes of the parser objects and of the program\'s .data/.bss must be unchanged and the last call must observe (result, functor log, stream text) exactly what it observes as the first call of a fresh process. (2) Schedules: for 10 pairs of calls two real threads run under a baton-passing scheduler with scheduling points in every user-supplied seam (buffer iterator dereference/increment, functor call, stream <<, custom lexer match); every schedule with at most 2 preemptions is executed (stateless depth-first enumeration by choice-sequence replay, one forked process per execution, divergence on replay is a harness error); each thread must observe its isolated result. (3) Side condition, not the deciding step: the same bodies free-running on 3 threads under ThreadSanitizer.'
+C15_RULE = 'Call alphabet of 14 calls on two parser objects (generated lexer + typed term + error rule; custom lexer): accepted, recovering, failing-at-eof, lexical-error and failing-recovery parses, a verbose parse, context_parse with a mutated context, write_diag_str. (1) Histories: every call sequence up to the depth bound runs in its own forked process on parser objects placed in read-only (mprotect) pages; after every call the bytes of the parser objects and of the program\'s .data/.bss must be unchanged and the last call must observe (result, functor log, stream text) exactly what it observes as the first call of a fresh process. (2) Schedules: for 12 pairs of calls two real threads run under a baton-passing scheduler with scheduling points in every user-supplied seam (buffer iterator dereference/increment, functor call, stream <<, custom lexer match); every schedule with at most 2 preemptions is executed (stateless depth-first enumeration by choice-sequence replay, one forked process per execution, divergence on replay is a harness error); each thread must observe its isolated result. (3) Side condition, not the deciding step: the same bodies free-running on 3 threads under ThreadSanitizer.'
 
 def run_c15(pid, tier, rep, deadline_s):
     q = tier == 'quick'
@@ -586,7 +586,7 @@ def run_c15(pid, tier, rep, deadline_s):
             bounds.append({'pass': 'all call sequences up to depth %d over %d calls' % (depth, res['alphabet']), 'completed': True, 'histories': res['histories']})
             samples.append({'mode': 'hist', 'result': res}); states += res['histories']; trans += res['checks']; cases += res['histories']
         bound = 2
-        nsh = 10
+        nsh = 12
         with ThreadPoolExecutor(max_workers=nsh) as ex: outs = list(ex.map(lambda k: sh([exe, 'sched', str(bound), '%d/%d' % (k, nsh)], timeout=deadline_s), range(nsh)))
         tot = {'schedules': 0, 'scheduling_points': 0, 'failures': 0, 'pairs': 0, 'maxp': 0}; first = ''
         ok = True
